@@ -145,6 +145,7 @@ def ty_class(ty, symparams=()):
         return ('fnparam',)
     if k == 'Str': return ('str',)
     if k in ('Closure', 'FnDef'): return ('fn',)
+    if k == 'FnPtr': return ('fnparam',)          # a function pointer parameter is an unknown function, like a generic `F: Fn(..)`
     if k == 'Never': return ('never',)
     return ('opaque',)
 
@@ -824,12 +825,25 @@ class Interp:
         assigned = set()
         for x in walk(e['body']):
             if x['k'] in ('Assign', 'AssignOp') and x['lhs']['k'] == 'VarRef': assigned.add(x['lhs']['var'])
-        for v in sorted(assigned):
-            if v in env and isinstance(env[v], VBdd):
-                self.events.append(('loop_init', v, env[v].term))
-                env[v] = VBdd(('p', v.split('#')[0] + '@iter'))
-            elif v in env:
-                raise Undecidable('loop-carried variable %s is not a diagram' % v, e['loc'])
+        carried = [v for v in sorted(assigned) if v in env]
+        for v in carried:
+            if not isinstance(env[v], VBdd): raise Undecidable('loop-carried variable %s is not a diagram' % v, e['loc'])
+        init = {v: self.W.rep(env[v].term) for v in carried}
+        # a carried variable that enters the loop as f(other carried variable) for an unknown function f (`let mut snew = t(s)`) is
+        # assumed to stay so at the loop head - an invariant the rule of the function must re-establish on the continuing iteration
+        derived = {}
+        for v in carried:
+            t0 = init[v]
+            if isinstance(t0, tuple) and len(t0) == 4 and t0[0] == 'app' and t0[1] == 'UFT':
+                for u in carried:
+                    if u != v and init[u] == t0[3] and u not in derived: derived[v] = (u, t0[2]); break
+        for v in carried:
+            if v in derived: continue
+            self.events.append(('loop_init', v, env[v].term))
+            env[v] = VBdd(('p', v.split('#')[0] + '@iter'))
+        for v, (u, fname_) in derived.items():
+            self.events.append(('loop_invariant', v, u, fname_))
+            env[v] = VBdd(('app', 'UFT', fname_, ('p', u.split('#')[0] + '@iter')))
         self.in_loop = True
         try:
             self.ev(e['body'], env)
